@@ -44,6 +44,9 @@ type request struct {
 	IsDir    bool  `json:"is_directory,omitempty"` // TransferMetadata.IsDirectory (upload: the data is a tar.gz of the single file u.txt)
 	Compress bool  `json:"compress,omitempty"`     // TransferMetadata.Compress
 	Offset   int64 `json:"offset,omitempty"`       // TransferMetadata.Offset (> 0: resume, ReadFileForDownloadAtOffset)
+	// directory upload: name and kind (reg | cont = typeflag '7' | fifo | char) of the archive's single entry ("" = u.txt, reg)
+	TarName string `json:"tar_name,omitempty"`
+	TarKind string `json:"tar_kind,omitempty"`
 }
 
 type kase struct {
@@ -197,15 +200,37 @@ func gz(b []byte) []byte {
 	return buf.Bytes()
 }
 
-func tarOf(name, data string) []byte {
+func tarOf(name, kind, data string) []byte {
 	var buf bytes.Buffer
 	zw := gzip.NewWriter(&buf)
 	tw := tar.NewWriter(zw)
-	tw.WriteHeader(&tar.Header{Name: name, Typeflag: tar.TypeReg, Mode: 0o644, Size: int64(len(data))})
-	tw.Write([]byte(data))
+	h := &tar.Header{Name: name, Typeflag: tar.TypeReg, Mode: 0o644, Size: int64(len(data)), Format: tar.FormatPAX}
+	switch kind {
+	case "cont":
+		h.Typeflag = tar.TypeCont
+	case "fifo":
+		h.Typeflag, h.Size = tar.TypeFifo, 0
+	case "char":
+		h.Typeflag, h.Size, h.Devmajor, h.Devminor = tar.TypeChar, 0, 1, 3
+	}
+	tw.WriteHeader(h)
+	if h.Size > 0 {
+		tw.Write([]byte(data))
+	}
 	tw.Close()
 	zw.Close()
 	return buf.Bytes()
+}
+
+func (r request) tarEntry() (string, string) {
+	name, kind := r.TarName, r.TarKind
+	if name == "" {
+		name = "u.txt"
+	}
+	if kind == "" {
+		kind = "reg"
+	}
+	return name, kind
 }
 
 // tarNames: the entry names of a tar.gz stream, sorted
@@ -256,7 +281,8 @@ func run(h *filetransfer.StreamHandler, root string, rq request) (res result) {
 		}
 		body := []byte(rq.Data)
 		if rq.IsDir {
-			body = tarOf("u.txt", rq.Data)
+			n, kd := rq.tarEntry()
+			body = tarOf(n, kd, rq.Data)
 		} else if rq.Compress {
 			body = gz(body)
 		}
@@ -478,8 +504,13 @@ func randomMeta(r *vh.Rand, rq *request) {
 			rq.Offset = []int64{1, 2, 3, 6, 1000}[r.Intn(5)]
 		}
 	case "upload":
-		rq.IsDir = r.Chance(1, 6)
+		rq.IsDir = r.Chance(1, 5)
 		rq.Compress = r.Chance(1, 3)
+		if rq.IsDir && r.Chance(2, 3) {
+			// the archive's entry: named like objects (and links) that may exist in the target directory, of a common or a rare type
+			rq.TarName = []string{"u.txt", "pub.txt", "flink", "link/x.txt", "dangling", "sub/deep.txt", "sub/up/evil.txt", "pubref", "inlink/n.txt", "hop1"}[r.Intn(10)]
+			rq.TarKind = []string{"reg", "reg", "cont", "cont", "fifo", "char"}[r.Intn(6)]
+		}
 	}
 }
 
@@ -522,6 +553,11 @@ func witnesses() []kase {
 		mk("directory download (tar stream)", request{Op: "download", Path: "@/allowed", IsDir: true}),
 		mk("directory upload", request{Op: "upload", Path: "@/allowed/updir", Data: "UP", IsDir: true}),
 		mk("directory upload through a link", request{Op: "upload", Path: "@/allowed/link/updir", Data: "UP", IsDir: true}),
+		mk("directory upload whose entry is named like a link that leaves the allowed area", request{Op: "upload", Path: "@/allowed", Data: "UP", IsDir: true, TarName: "flink"}),
+		mk("directory upload: contiguous-file entry (typeflag 7) named like such a link", request{Op: "upload", Path: "@/allowed", Data: "UP", IsDir: true, TarName: "flink", TarKind: "cont"}),
+		mk("directory upload: typeflag 7 onto a dangling link", request{Op: "upload", Path: "@/allowed", Data: "UP", IsDir: true, TarName: "dangling", TarKind: "cont"}),
+		mk("directory upload: typeflag 7 below a link", request{Op: "upload", Path: "@/allowed", Data: "UP", IsDir: true, TarName: "link/x.txt", TarKind: "cont"}),
+		mk("directory upload: character device / fifo entries", request{Op: "upload", Path: "@/allowed/sub", Data: "", IsDir: true, TarName: "flink", TarKind: "char"}),
 		mk("compressed upload", request{Op: "upload", Path: "@/allowed/z.txt", Data: "UP", Compress: true}),
 		{Note: "roots, then a request under a pattern's base that the pattern does not match", Tree: links, Allowed: []string{"@/allowed/s*"}, Pre: []request{{Op: "roots"}}, Req: request{Op: "download", Path: "@/allowed/pub.txt"}},
 		{Note: "roots with two glob patterns, then delete under a base", Tree: links, Allowed: []string{"@/allowed2/x*", "@/allowed/s*"}, Pre: []request{{Op: "roots"}, {Op: "list", Path: "@/allowed"}}, Req: request{Op: "delete", Path: "@/allowed/pub.txt"}},
@@ -760,7 +796,7 @@ func main() {
 	}
 
 	var sb strings.Builder
-	sb.WriteString("From Coq Require Import List NArith String.\nFrom MM Require Import Model.Fs Model.PathPolicy.\nImport ListNotations.\nLocal Open Scope string_scope.\n")
+	sb.WriteString("From Coq Require Import List NArith String.\nFrom MM Require Import Model.Fs Model.Untar Model.PathPolicy.\nImport ListNotations.\nLocal Open Scope string_scope.\n")
 	baseDef := coqTreeList(baseTree())
 	sweepDef := coqTreeList(sweepTree()[len(baseTree()):])
 	sb.WriteString(in.Defs())
@@ -855,7 +891,11 @@ func coqReq(r request) string {
 		return "XRoots"
 	case "upload":
 		if r.IsDir {
-			return fmt.Sprintf("XUploadDir %s %s", p, in.S(r.Data))
+			n, kd := r.tarEntry()
+			if kd == "reg" {
+				return fmt.Sprintf("XUploadDir %s (EReg %s %s)", p, in.S(n), in.S(r.Data))
+			}
+			return fmt.Sprintf("XUploadDir %s (EOther %s)", p, in.S(n)) // every other typeflag is skipped
 		}
 		return fmt.Sprintf("XBase (RUpload %s %s)", p, in.S(r.Data))
 	case "download":
